@@ -652,6 +652,20 @@ class Melody(Task):
         if rng.random() < 0.3:   # continuous reference reward / estimated voicing (Bittner & Bosch)
             out["reward"] = [S(Fr(rng.randint(0, 8), 8)) if x is not None else "0" for x in m]
             out["est_voicing"] = [S(Fr(rng.randint(0, 8), 8)) for _ in em]
+        if n >= 5 and rng.random() < 0.25:
+            # the estimate on its own time base (another hop, about the same span): it is resampled onto the reference's,
+            # with any interpolation `kind` scipy's interp1d accepts (documented keyword of evaluate / to_cent_voicing)
+            ehop = hop * rng.choice([Fr(1, 2), Fr(3, 2), Fr(3, 4), Fr(5, 4), Fr(2)])
+            en = max(5, int((n * hop) / ehop) + rng.choice([0, 1, 2]))
+            _, em2 = self._series(rng, en, ehop)
+            # 3.7 cents off the 12.5-cent lattice: no difference to a reference pitch - also after linear interpolation
+            # between two estimate frames at 1/2 .. 1/5 of the way - lies on a tolerance (10, 25, 50, 80, 150 cents)
+            em2 = [None if x is None else x + Fr(37, 1000) for x in em2]
+            out["est"] = [[S(ehop * i) for i in range(en)], [None if x is None else S(x) for x in em2]]
+            if "est_voicing" in out or rng.random() < 0.5:
+                out["est_voicing"] = [S(Fr(rng.randint(0, 8), 8)) for _ in em2]
+                out.setdefault("reward", [S(Fr(rng.randint(0, 8), 8)) if x is not None else "0" for x in m])
+            out["kw"] = {"kind": rng.choice(["linear", "nearest", "zero", "slinear", "quadratic", "cubic"])}
         return out
 
     def gen_self(self, rng):
